@@ -29,11 +29,18 @@ func runPost(out *vio.Out, c Case) {
 			names = append(names, string(bytesOf(n)))
 		}
 	}
-	in := c.Names
-	if in == nil {
+	postEvent(out, c.ID, names, c.Names, c.Nil, c.XI)
+}
+
+// postEvent passes names (the slice as the caller holds it, possibly aliasing storage of the
+// library) to Encode and records what is written and read back; want is the value of the list
+// kept independently by the harness.  Returns the encoded table.
+func postEvent(out *vio.Out, id int, names []string, want [][]int, isNil bool, xi bool) []byte {
+	in := want
+	if in == nil || isNil {
 		in = [][]int{}
 	}
-	e := ev{"ev": "post", "case": c.ID, "names": in, "nil": c.Nil, "panic": false}
+	e := ev{"ev": "post", "case": id, "names": in, "nil": isNil, "panic": false}
 	var data []byte
 	func() {
 		defer func() {
@@ -76,7 +83,7 @@ func runPost(out *vio.Out, c Case) {
 	e["xiused"] = false
 	e["xifail"] = false
 	e["xi"] = [][]int{}
-	if c.XI && len(names) > 0 && data != nil {
+	if xi && len(in) > 0 && data != nil {
 		e["xiused"] = true
 		func() {
 			defer func() {
@@ -84,14 +91,14 @@ func runPost(out *vio.Out, c Case) {
 					e["xifail"] = true
 				}
 			}()
-			f, err := sfnt.Parse(namex.BuildFont(len(names), data, nil))
+			f, err := sfnt.Parse(namex.BuildFont(len(in), data, nil))
 			if err != nil {
 				e["xifail"] = true
 				return
 			}
 			var got []string
 			var buf sfnt.Buffer
-			for i := range names {
+			for i := range in {
 				s, err := f.GlyphName(&buf, sfnt.GlyphIndex(i))
 				if err != nil {
 					e["xifail"] = true
@@ -103,6 +110,129 @@ func runPost(out *vio.Out, c Case) {
 		}()
 	}
 	out.Emit(e)
+	return data
+}
+
+// runPostHist: a glyph-name list with a history (NameCodec.tla, part "posth").  The list handed to
+// Encode is the very slice earlier calls produced: a fresh one, the one post.Read returned, a
+// re-slice of it, an append to it.  The harness keeps the expected VALUE of the list separately
+// (deep copies) and every Encode is judged like a fresh list would be.
+//
+//	E  Encode the current list (+ walk, Read back)          R  Read the table written last, continue with the
+//	S  re-slice: 1 [:1], 2 [:len-1], 3 [1:len-1], 4 [1:]        slice Read returned (event postread)
+//	A  append (full slice expression, never writes into     M  overwrite the first name (skipped while the list
+//	   the aliased array): 1 next standard name, 2 custom      aliases the shared slice of a version 1 Read:
+//	                                                            the documentation of Read forbids it)
+//
+// A final Encode (with golang.org/x/image as second reader) ends every history.
+func runPostHist(out *vio.Out, c Case) {
+	st := std()
+	strs := func(a [][]int) []string {
+		res := make([]string, len(a))
+		for i, n := range a {
+			res[i] = string(bytesOf(n))
+		}
+		return res
+	}
+	clone := func(a [][]int) [][]int { return append([][]int{}, a...) }
+	custom := func(s string) []int { return ints([]byte(s)) }
+	var want [][]int
+	isNil := false
+	switch c.Init {
+	case "std":
+		want = clone(st)
+	case "stdp":
+		want = clone(st[:257])
+	case "cust":
+		want = [][]int{custom("~c1"), custom("~c2.alt")}
+	case "mix":
+		want = [][]int{st[2], custom("~c1"), st[1]}
+	case "nil":
+		isNil = true
+	default:
+		vio.Fatal("unknown init " + c.Init)
+	}
+	var cur []string
+	if !isNil {
+		cur = strs(want)
+	}
+	var last []byte
+	var lastWant [][]int
+	lastNil := false
+	shared := false
+	for _, o := range c.Ops {
+		switch o.Op {
+		case "E":
+			last = postEvent(out, c.ID, cur, want, isNil, false)
+			lastWant, lastNil = clone(want), isNil
+		case "R":
+			if last == nil {
+				continue
+			}
+			e := ev{"ev": "postread", "case": c.ID, "names": lastWant, "nil": lastNil, "readfail": false, "dec": [][]int{}}
+			if lastNil || lastWant == nil {
+				e["names"] = [][]int{}
+			}
+			var got []string
+			func() {
+				defer func() {
+					if recover() != nil {
+						e["readfail"] = true
+					}
+				}()
+				info, err := post.Read(bytes.NewReader(last))
+				if err != nil || info == nil {
+					e["readfail"] = true
+					return
+				}
+				got = info.Names
+				e["dec"] = bseqs(got)
+			}()
+			out.Emit(e)
+			if e["readfail"].(bool) {
+				return
+			}
+			cur, want, isNil = got, clone(lastWant), lastNil
+			v := namex.WalkPost(last).Version
+			shared = v == [2]int{1, 0}
+		case "S":
+			if isNil || len(want) < 2 || len(cur) != len(want) {
+				continue
+			}
+			n := len(want)
+			lo, hi := 0, n-1
+			switch o.A {
+			case 1:
+				hi = 1
+			case 3:
+				lo = 1
+			case 4:
+				lo, hi = 1, n
+			}
+			cur, want = cur[lo:hi], clone(want[lo:hi])
+		case "A":
+			if isNil {
+				continue
+			}
+			nm := custom("~app")
+			if o.A == 1 {
+				nm = st[len(want)%258]
+			}
+			cur = append(cur[:len(cur):len(cur)], string(bytesOf(nm)))
+			want = append(clone(want), nm)
+			shared = false
+		case "M":
+			if isNil || len(want) < 1 || len(cur) != len(want) || shared {
+				continue
+			}
+			cur[0] = "~mut"
+			want = clone(want)
+			want[0] = custom("~mut")
+		default:
+			vio.Fatal("unknown history op " + o.Op)
+		}
+	}
+	postEvent(out, c.ID, cur, want, isNil, true)
 }
 
 var stdCache [][]int
@@ -202,6 +332,9 @@ func concretisePost(rng *rand.Rand, a AbsCase) Case {
 
 func genPost(s *sink, tlcCases string) {
 	for i, a := range vio.ReadLines[AbsCase](tlcCases) {
+		if a.Part == "posthist" {
+			s.add(Case{Kind: "posthist", Init: a.Init, Ops: a.Ops}, "")
+		}
 		if a.Part != "post" {
 			continue
 		}
